@@ -76,7 +76,7 @@ fn check_accessors(e: &Encoded, c: &Case, archive: &Arc<Vec<u8>>) -> Result<(), 
     Ok(())
 }
 
-fn run_case(c: &Case, rec: &mut CaseRec) -> Result<(), String> {
+pub fn run_case(c: &Case, rec: &mut CaseRec) -> Result<(), String> {
     if !c.cfg.chunker.is_valid() {
         rec.excluded = Some("invalid_config".into());
         return Ok(());
@@ -224,7 +224,7 @@ fn spec_strategy() -> impl Strategy<Value = EncSpec> {
         })
 }
 
-fn case_strategy() -> impl Strategy<Value = Case> {
+pub fn case_strategy() -> impl Strategy<Value = Case> {
     (
         prop_oneof![5 => source_strategy(5, 1200), 1 => zero_heavy_strategy(4, 200), 1 => Just(vec![])],
         arch_cfg_strategy(4, true),
